@@ -592,6 +592,7 @@ func TestC01(t *testing.T) {
 		"through one reader; distinct = distinct wire images (SHA-1)")
 	rep.RuleAdd("Also: already encoded frames whose id is in the writer's dialect (emitted as given); signed untruncated frames read back by a keyed reader with the dialect.")
 	rep.RuleAdd("Rounds 12-15: writers that carry deprecated options of their own; raw frames whose checksum is 0; complete frames of dialect messages with a wrong checksum (either version, signed or not) between the valid frames of a stream.")
+	rep.RuleAdd("Rounds 16-17: stray bytes between the frames of a stream, timestamps 0 / 2^48-1, frames packed into datagrams of up to 512 bytes (one per Read), successive readers on one caller-supplied buffered reader.")
 	rep.Assume("reference serializer harness/ref written from the MAVLink serialization guide (anchored by upstream golden byte vectors)")
 	rep.Assume("frames violating their own invariants (signature without signed flag, payload > 255) are outside the statement")
 
